@@ -1013,7 +1013,7 @@ func (r *Runner) resolveLiteralExpression(ctx context.Context, expr *LiteralExpr
 	case SK_CtxKeyword:
 		return ctx, nil
 	case SK_NumberLiteral:
-		r, ok := newDecimalBig().SetString(expr.Value)
+		r, ok := parseNumber(expr.Value)
 		if !ok {
 			return nil, fmt.Errorf("%s not number literal", expr.Value)
 		}
@@ -1145,7 +1145,7 @@ func convToNumber(v interface{}) *decimal.Big {
 	case *decimal.Big:
 		return n
 	case string:
-		r, ok := newDecimalBig().SetString(n)
+		r, ok := parseNumber(n)
 		if !ok || !isNumericText(n) {
 			return newDecimalBig().SetNaN(true)
 		}
@@ -1163,6 +1163,22 @@ func convToNumber(v interface{}) *decimal.Big {
 			return newDecimalBig().SetNaN(true)
 		}
 	}
+}
+
+// parseNumber reads number text. The decimal library stores whatever exponent fits an int -
+// wrapping around at the very edge, so that 0.01e-9223372036854775807 came out as
+// 1E+9223372036854775807 - and silently substitutes infinity or zero beyond that, but it only
+// computes with exponents up to decimal.MaxScale ('5 % 1e9223372036854775807' never returned).
+// Text outside that range is not a number this package can represent.
+func parseNumber(text string) (*decimal.Big, bool) {
+	r, ok := newDecimalBig().SetString(text)
+	if !ok || r.Context.Conditions&(decimal.Overflow|decimal.Underflow) != 0 {
+		return r, false
+	}
+	if r.IsFinite() && (r.Scale() > decimal.MaxScale || r.Scale() < decimal.MinScale || r.Precision()-r.Scale() > decimal.MaxScale) {
+		return r, false
+	}
+	return r, true
 }
 
 // isNumericText reports whether s is a number as it can be written out: an optional sign, digits
